@@ -61,7 +61,10 @@ def r1(ctx):
                     want = ["on_data(<fdata>, 0, <ffin>)", "on_cont_message(<fdata>, <ffin>)"]
                 else:  # CONT without a continuation handler: delivered as a message of its type
                     want = ["on_data(<fdata>, 0, True)", "on_message(<fdata>)"]
-                ok = calls == want and len(reads) == 1 and reads[0].args == (TRUE,) and o.kind == "return" and o.value == TRUE
+                wrote = [e.name for e in o.effects if e.name in ("appsock.pong", "appsock.ping", "appsock.send", "appsock.close", "appsock.shutdown")]
+                ok = calls == want and len(reads) == 1 and reads[0].args == (TRUE,) and o.kind == "return" and o.value == TRUE and not wrote
+                if wrote:
+                    calls = calls + [f"<writes: {wrote}>"]
                 ctx.ob(f"{READ}:{op}{frag}:on_cont_message={'set' if on_cont else 'none'}:skip_utf8={skip}", ok,
                        f"callbacks {calls}" if ok else f"callbacks {calls}, frames read {len(reads)}, result {o.kind} {o.value!r}; the routing table requires {want} after exactly one recv_data_frame(True)",
                        loc, {"path": path_text(o)})
@@ -93,6 +96,15 @@ def r2(ctx):
             ctx.ob(f"{q}:normal-call", ok, "callback(app, *args) once, no on_error", loc)
     if seen != {True, False}:
         raise AnalysisError("callback raising / not raising not both explored")
+    # no on_error handler installed: the exception is still contained
+    In = Interp(idx, Config(stubs=sock_stubs(), may_raise=cb_may_raise(("on_message",))))
+    outs_n = ctx.count_paths(In.explore(lambda run: In.call(run, In.getattr(run, mk_app(In, run, {"on_error": False}), "_callback", None),
+                                                           [Sym("on_message", "func"), Sym("payload")], {}, None)))
+    badn = [o for o in outs_n if o.kind != "return"]
+    ctx.ob(f"{q}:user-exception-contained-without-on_error", not badn and len(outs_n) >= 2,
+           "a raising callback is contained even when no on_error handler is set" if not badn else
+           f"with on_error unset a raising callback makes _callback end as {badn[0].kind} {badn[0].exc_class}: delivery of later events stops", loc,
+           {"path": path_text(badn[0])} if badn else None)
     # KeyboardInterrupt / SystemExit are not swallowed
     I2 = Interp(idx, Config(stubs=sock_stubs(), may_raise=cb_may_raise(("on_message",), "builtins.KeyboardInterrupt")))
     outs2 = ctx.count_paths(I2.explore(lambda run: I2.call(run, I2.getattr(run, mk_app(I2, run), "_callback", None), [Sym("on_message", "func")], {}, None)))
